@@ -66,6 +66,10 @@ type c03V4Ctx struct {
 	presence                  c03Tri
 	presenceWhy               string
 	seenUnmarshal, seenLookup bool
+
+	// helpers handing out the payload without a boolean/error status result: the activation of the
+	// helper -> where its result is consumed in the caller
+	links map[*c03Frame]c03Hop
 }
 
 func (x *c03V4Ctx) set(which *c03Tri, why *string, t c03Tri, w string) {
@@ -80,7 +84,126 @@ func (x *c03V4Ctx) set(which *c03Tri, why *string, t c03Tri, w string) {
 // cut: under the assumption, sink cannot be reached from `from` (for a return sink with a boolean
 // status result: cannot be reached with a status other than false).
 func (x *c03V4Ctx) cut(fr *c03Frame, f c03Facts, from, sink ssa.Instruction, statusIdx int) c03Tri {
-	return c03Cut(x.eng, fr, f, from, sink, statusIdx)
+	return c03CutThrough(x.eng, x.links, fr, f, from, sink, statusIdx)
+}
+
+// c03Hop says where the result of a helper activation is consumed in its caller. With all set, every
+// return of the helper counts (the helper reports failure in a way that is only judged by what the
+// caller does with its results); otherwise only the return under consideration.
+type c03Hop struct {
+	fr        *c03Frame
+	call      *ssa.Call
+	sink      ssa.Instruction
+	statusIdx int
+	all       bool
+}
+
+func c03CopyFacts(f c03Facts) c03Facts {
+	f2 := c03NoFacts()
+	for v, k := range f.byVal {
+		f2.byVal[v] = k
+	}
+	for tm, k := range f.byTerm {
+		f2.byTerm[tm] = k
+	}
+	return f2
+}
+
+// c03CutThrough: under assumption f (about values of activation fr), the sink cannot be reached from
+// `from`. Where the sink is a return of a helper whose consumer is known (links), the question is carried
+// into the caller: one case per return the helper can take after `from` under the assumption, with the
+// constant results it yields there — whatever the helper's way of reporting failure (a boolean of either
+// polarity, a status code, several results).
+func c03CutThrough(base *c03Eng, links map[*c03Frame]c03Hop, fr *c03Frame, f c03Facts, from, sink ssa.Instruction, statusIdx int) c03Tri {
+	ret, isRet := sink.(*ssa.Return)
+	l, linked := links[fr]
+	if !isRet || !linked || from.Parent() != fr.fn {
+		return c03Cut(base, fr, f, from, sink, statusIdx)
+	}
+	if !an.Dominates(from, sink) && !l.all {
+		return c03Maybe
+	}
+	eng := base.under(f)
+	idx := 0
+	for i, in := range from.Block().Instrs {
+		if in == from {
+			idx = i + 1
+		}
+	}
+	w := eng.walk(fr, from.Block(), idx, map[*ssa.BasicBlock]bool{from.Block(): true})
+	if w.truncated || w.opaque {
+		return c03Maybe
+	}
+	rets := w.rets
+	if from.Block() == sink.Block() && !l.all {
+		rets = []c03Ret{{ret, c03Path{}}}
+	}
+	t := c03Yes
+	for _, rt := range rets {
+		if !l.all && rt.ret != ret {
+			continue
+		}
+		f2 := c03CopyFacts(f)
+		for i, rv := range returnValues(rt.ret) {
+			if ex := c03ExtractOf(l.call, i); ex != nil {
+				if k, st := eng.eval(fr, rv, rt.pe); st == c03Known {
+					f2.val(ex, k)
+				}
+			} else if i == 0 && len(rt.ret.Results) == 1 {
+				if k, st := eng.eval(fr, rv, rt.pe); st == c03Known {
+					f2.val(l.call, k)
+				}
+			}
+		}
+		switch c03CutThrough(base, links, l.fr, f2, l.call, l.sink, l.statusIdx) {
+		case c03No:
+			t = c03No
+		case c03Maybe:
+			if t == c03Yes {
+				t = c03Maybe
+			}
+		}
+	}
+	if t == c03No {
+		// results the evaluator cannot follow (errors, pointers) may be what the caller tests
+		res := l.call.Call.Signature().Results()
+		for i := 0; i < res.Len(); i++ {
+			if b, ok := res.At(i).Type().Underlying().(*types.Basic); ok && b.Info()&(types.IsBoolean|types.IsInteger) != 0 {
+				continue
+			}
+			if an.IsErrorType(res.At(i).Type()) {
+				continue // nil-ness of errors is evaluated
+			}
+			if ex := c03ExtractOf(l.call, i); ex != nil && c03HasBranchUse(ex, 0) {
+				return c03Maybe
+			}
+		}
+	}
+	return t
+}
+
+// c03HasBranchUse: v is compared (directly or after a conversion) somewhere.
+func c03HasBranchUse(v ssa.Value, d int) bool {
+	if v.Referrers() == nil || d > 3 {
+		return false
+	}
+	for _, ref := range *v.Referrers() {
+		switch y := ref.(type) {
+		case *ssa.BinOp:
+			if c03IsCmp(y.Op) {
+				return true
+			}
+		case *ssa.ChangeType, *ssa.ChangeInterface, *ssa.MakeInterface, *ssa.Phi:
+			if c03HasBranchUse(y.(ssa.Value), d+1) {
+				return true
+			}
+		case *ssa.Call:
+			if b, ok := y.Type().Underlying().(*types.Basic); ok && b.Kind() == types.Bool {
+				return true // handed to a predicate
+			}
+		}
+	}
+	return false
 }
 
 // c03Cut: under assumption f, sink cannot be reached from `from` (for a return sink with a boolean
@@ -262,15 +385,33 @@ func (x *c03V4Ctx) chase(fr *c03Frame, v ssa.Value, sink ssa.Instruction, status
 	}
 	res := nf.fn.Signature.Results()
 	j := res.Len() - 1
+	isBool, plain := false, false
 	if j == ex.Index || j < 0 {
-		x.set(&x.payload, &x.payloadWhy, c03Maybe, "the payload comes out of a helper without a status result")
-		return
-	}
-	isBool := false
-	if b, ok := res.At(j).Type().Underlying().(*types.Basic); ok && b.Kind() == types.Bool {
+		plain = true
+	} else if b, ok := res.At(j).Type().Underlying().(*types.Basic); ok && b.Kind() == types.Bool {
 		isBool = true
 	} else if !an.IsErrorType(res.At(j).Type()) {
-		x.set(&x.payload, &x.payloadWhy, c03Maybe, "the payload comes out of a helper without a status result")
+		plain = true
+	}
+	if plain {
+		// no boolean/error status in last position: whatever the helper reports is judged where the
+		// caller consumes it (see cut)
+		if x.links == nil {
+			x.links = map[*c03Frame]c03Hop{}
+		}
+		x.links[nf] = c03Hop{fr, call, sink, statusIdx, true}
+		n := 0
+		for _, r := range an.Returns(nf.fn) {
+			rr := returnValues(r)
+			if len(rr) <= ex.Index || an.IsNilConst(rr[ex.Index]) {
+				continue // hands out no payload
+			}
+			n++
+			x.chase(nf, rr[ex.Index], r, -1, d+1)
+		}
+		if n == 0 {
+			x.set(&x.payload, &x.payloadWhy, c03Maybe, "the helper producing the payload never succeeds")
+		}
 		return
 	}
 	statv := c03ExtractOf(call, j)
@@ -529,7 +670,7 @@ func c03V5(c *rt.Ctx) {
 	uqrc := c03ConstOf(c, c03P, "UponQuorumRoundChanges")
 	n, untraced := 0, 0
 	pps := c03PrePrepares(r)
-	var cell *ssa.Alloc
+	var cell *c03Cell
 	func() {
 		defer func() { _ = recover() }()
 		cell = c03InputCell(r, pps[0].inner.Common().Args[5].Type())
@@ -558,7 +699,7 @@ func c03V5(c *rt.Ctx) {
 			case okv == nil:
 				tri, why = c03No, "the ok result of getSingleJustifiedPrPv is discarded"
 			default:
-				t := c03Cut(r.eng, o.fr, c03NoFacts().val(okv, c03Bool(false)), o.g, o.sink, o.statusIdx)
+				t := c03CutThrough(r.eng, r.pvLinks, o.fr, c03NoFacts().val(okv, c03Bool(false)), o.g, o.sink, o.statusIdx)
 				if t == c03No || (t == c03Maybe && tri == c03Yes) {
 					tri, why = t, "the broadcast is reachable although ok is false"
 				}
@@ -647,7 +788,7 @@ func c03V5(c *rt.Ctx) {
 			worse(&checked, &cpos, c03No, pos)
 			cwhy = "the ok result of getJustifiedQrc is discarded"
 		} else {
-			reach, und := k.eng.under(c03NoFacts().val(okv, c03Bool(false))).reachable(o.pt)
+			reach, und := k.eng.reachableUnder(o, c03NoFacts().val(okv, c03Bool(false)))
 			switch {
 			case und:
 				worse(&checked, &cpos, c03Maybe, pos)
